@@ -100,6 +100,7 @@ Section Eval.
   Definition as_bits (l : list value) : option (list bool) :=
     fold_right (fun v acc => match v, acc with VBit b, Some r => Some (b :: r) | _, _ => None end) (Some []) l.
 
+  Definition integralv (v : value) : bool := match v with VInt _ | VLong _ => true | _ => false end.
   Definition is_str (v : value) := match v with VStr _ => true | _ => false end.
 
   Definition is_eq (o : binop) : bool := match o with OEq => true | _ => false end.
